@@ -86,8 +86,14 @@ class World:
             if self.backend == "slurm" and kn.get("sacct_batch"):
                 import gwf.backends.slurm as S
 
-                self._saved_defaults = S.SlurmOps.get_job_states_from_sacct_batched.__defaults__
-                S.SlurmOps.get_job_states_from_sacct_batched.__defaults__ = (kn["sacct_batch"],)
+                # tuning knob: the batch size is a default argument; if a refactoring moved it, the knob is
+                # simply not applied (and the simulated sacct then accepts any number of ids)
+                fn = getattr(getattr(S, "SlurmOps", None), "get_job_states_from_sacct_batched", None)
+                if fn is not None and getattr(fn, "__defaults__", None) and len(fn.__defaults__) == 1:
+                    self._saved_defaults = fn.__defaults__
+                    fn.__defaults__ = (kn["sacct_batch"],)
+                else:
+                    self.cluster.sacct_limit = None
         elif self.backend == "multi":
             from .cluster import MultiCluster
             from .sock import Hub, SocketProxy, TimeProxy
@@ -139,6 +145,7 @@ class World:
             import gwf.backends.slurm as S
 
             S.SlurmOps.get_job_states_from_sacct_batched.__defaults__ = self._saved_defaults
+            self._saved_defaults = None
         if self.local is not None:
             self.local.stop()
         shutil.rmtree(self.base, ignore_errors=True)
